@@ -25,24 +25,21 @@ type finding struct {
 
 var two64 = new(big.Int).Lsh(big.NewInt(1), 64)
 
-// wrapped reports whether got is the two's-complement reinterpretation of the integer literal
-// lit in the other signedness (and differs from it).
-func wrapped(lit, got string) bool {
+var two63 = new(big.Int).Lsh(big.NewInt(1), 63)
+
+// storedOtherInteger reports whether got is an integer different from the literal lit.
+func storedOtherInteger(lit, got string) bool {
 	x, ok := new(big.Int).SetString(lit, 10)
 	if !ok || !strings.HasPrefix(got, "n:") {
 		return false
 	}
 	g, ok := new(big.Int).SetString(got[2:], 10)
-	if !ok || g.Cmp(x) == 0 {
-		return false
-	}
-	d := new(big.Int).Sub(g, x)
-	d.Abs(d)
-	return d.Cmp(two64) == 0
+	return ok && g.Cmp(x) != 0
 }
 
-// signWrapRegion is the generator region of findingSignWrap: negative integer literals for
-// unsigned variables, integer literals above MaxInt64 (up to MaxUint64) for signed ones.
+// signWrapRegion is the generator region of the finding for integer literals: literals that
+// the variable's Go representation cannot hold - negative or >= 2^64 for unsigned variables,
+// >= 2^63 or < -2^63 for signed ones.
 func signWrapRegion(v *varInfo, c cand) bool {
 	x, ok := new(big.Int).SetString(c.sql, 10)
 	if !ok {
@@ -50,9 +47,9 @@ func signWrapRegion(v *varInfo, c cand) bool {
 	}
 	switch v.kind {
 	case "uint":
-		return x.Sign() < 0
+		return x.Sign() < 0 || x.Cmp(two64) >= 0
 	case "int":
-		return x.Cmp(big.NewInt(1<<62)) > 0 && x.Cmp(two64) < 0 && x.Cmp(new(big.Int).Lsh(big.NewInt(1), 63)) >= 0
+		return x.Cmp(two63) >= 0 || x.Cmp(new(big.Int).Neg(two63)) < 0
 	}
 	return false
 }
@@ -85,6 +82,6 @@ func outOfDomainRegion(v *varInfo, c cand) bool { return signWrapRegion(v, c) ||
 
 var findings = []finding{
 	{findingSignWrap, func(v *varInfo, c cand, got string) bool {
-		return signWrapRegion(v, c) && wrapped(c.sql, got) || fractionRegion(v, c) && rounded(c.sql, got)
+		return signWrapRegion(v, c) && storedOtherInteger(c.sql, got) || fractionRegion(v, c) && rounded(c.sql, got)
 	}},
 }
